@@ -203,6 +203,7 @@ Qed.
 
 (* ---------- the deserializer never runs out of fuel, never reads out of bounds, and never claims more bytes than the
    buffer has *)
+Ltac sp3 := split; [|split].
 Lemma deser_bounds amax fuel :
   (forall depth bs, (length bs <= fuel)%nat ->
      deser_f amax depth fuel bs <> DFuel /\ deser_f amax depth fuel bs <> DOob /\
@@ -213,43 +214,43 @@ Lemma deser_bounds amax fuel :
 Proof.
   induction fuel as [|f [IHf IHe]].
   - split.
-    + intros depth [|b r] H; simpl in H; [|lia]. simpl. repeat split; discriminate.
+    + intros depth [|b r] H; simpl in H; [|lia]. simpl. sp3; discriminate.
     + intros depth count bs H. lia.
   - split.
-    + intros depth [|tag r] H; [simpl; repeat split; discriminate|].
+    + intros depth [|tag r] H; [simpl; sp3; discriminate|].
       simpl length in H. cbn [deser_f].
       assert (F8 : forall mk, fixed8 mk r <> DFuel /\ fixed8 mk r <> DOob /\
                               (forall v n, fixed8 mk r = DOk v n -> (1 <= n <= length (tag :: r))%nat)).
-      { intros mk. unfold fixed8. destruct (Nat.ltb_spec (length (firstn 8 r)) 8); repeat split; try discriminate.
+      { intros mk. unfold fixed8. destruct (Nat.ltb_spec (length (firstn 8 r)) 8); sp3; try discriminate.
         intros v n E. inversion E; subst. rewrite firstn_length in *. cbn [length]. lia. }
       destruct (tag =? TAG_INT); [apply F8|].
       destruct (tag =? TAG_FLOAT); [apply F8|].
       destruct (tag =? TAG_BOOL).
-      { destruct r as [|b r']; repeat split; try discriminate. intros v n E. inversion E; subst. simpl length. lia. }
+      { destruct r as [|b r']; sp3; try discriminate. intros v n E. inversion E; subst. simpl length. lia. }
       destruct (tag =? TAG_STRING).
-      { destruct (Nat.ltb_spec (length r) 4); [repeat split; discriminate|]. cbv zeta.
-        destruct (N.ltb_spec (len (tag :: r) - 5) (of_le (firstn 4 r))) as [H1|H1]; [repeat split; discriminate|].
-        repeat split; try discriminate. clear F8. set (l := of_le (firstn 4 r)) in *. clearbody l.
+      { destruct (Nat.ltb_spec (length r) 4); [sp3; discriminate|]. cbv zeta.
+        destruct (N.ltb_spec (len (tag :: r) - 5) (of_le (firstn 4 r))) as [H1|H1]; [sp3; discriminate|].
+        sp3; try discriminate. clear F8. set (l := of_le (firstn 4 r)) in *. clearbody l.
         intros v n E. inversion E; subst. clear E. unfold len in H1. cbn [length] in *. lia. }
       destruct (tag =? TAG_OPAQUE); [apply F8|].
       destruct (tag =? TAG_ARRAY).
-      { destruct (Nat.ltb_spec (length r) 5); [repeat split; discriminate|].
-        destruct r as [|et r1]; [repeat split; discriminate|]. cbv zeta. simpl length in *.
+      { destruct (Nat.ltb_spec (length r) 5); [sp3; discriminate|].
+        destruct r as [|et r1]; [sp3; discriminate|]. cbv zeta. simpl length in *.
         assert (L4 : length (skipn 4 r1) = (length r1 - 4)%nat) by apply skipn_length.
-        destruct ((len (tag :: et :: r1) - 6 <? of_le (firstn 4 r1)) || (COP_MAX_NESTING <=? depth)); [repeat split; discriminate|].
-        destruct (amax <? of_le (firstn 4 r1)); [repeat split; discriminate|].
+        destruct ((len (tag :: et :: r1) - 6 <? of_le (firstn 4 r1)) || (COP_MAX_NESTING <=? depth)); [sp3; discriminate|].
+        destruct (amax <? of_le (firstn 4 r1)); [sp3; discriminate|].
         destruct (IHe (depth + 1) (of_le (firstn 4 r1)) (skipn 4 r1)) as (Hnf & Hno & Hb); [lia|].
-        destruct (deser_elems amax (depth + 1) f (of_le (firstn 4 r1)) (skipn 4 r1)) eqn:E; repeat split; try discriminate; try congruence.
+        destruct (deser_elems amax (depth + 1) f (of_le (firstn 4 r1)) (skipn 4 r1)) eqn:E; sp3; try discriminate; try congruence.
         intros v n0 E0. inversion E0; subst. specialize (Hb _ _ eq_refl). lia. }
-      repeat split; try discriminate. intros v n E. inversion E; subst. simpl length. lia.
+      sp3; try discriminate. intros v n E. inversion E; subst. simpl length. lia.
     + intros depth count bs H. cbn [deser_elems].
-      destruct (count =? 0); [repeat split; try discriminate; intros vs n E; inversion E; lia|].
+      destruct (count =? 0); [sp3; try discriminate; intros vs n E; inversion E; lia|].
       destruct (IHf depth bs) as (Hnf & Hno & Hb); [lia|].
-      destruct (deser_f amax depth f bs) as [v n| | |] eqn:E; try (repeat split; discriminate); try congruence.
+      destruct (deser_f amax depth f bs) as [v n| | |] eqn:E; try (sp3; discriminate); try congruence.
       specialize (Hb _ _ eq_refl).
       assert (L : length (skipn n bs) = (length bs - n)%nat) by apply skipn_length.
       destruct (IHe depth (N.pred count) (skipn n bs)) as (Hnf2 & Hno2 & Hb2); [lia|].
-      destruct (deser_elems amax depth f (N.pred count) (skipn n bs)) eqn:E2; repeat split; try discriminate; try congruence.
+      destruct (deser_elems amax depth f (N.pred count) (skipn n bs)) eqn:E2; sp3; try discriminate; try congruence.
       intros vs0 n1 E3. inversion E3; subst. specialize (Hb2 _ _ eq_refl). lia.
 Qed.
 
